@@ -7,7 +7,7 @@
 From Coq Require Import NArith List Bool.
 Require Import SDS.Model.Mach SDS.Model.Bits SDS.Model.Raw SDS.Model.IntVec SDS.Model.BitVec SDS.gen.Consts.
 Require Import SDS.Spec.BitSeq SDS.Proofs.BitsProof SDS.Proofs.BVCommon SDS.Proofs.RankProof.
-Require Import SDS.Proofs.OneIterProof SDS.Proofs.SelectProof.
+Require Import SDS.Proofs.OneIterProof SDS.Proofs.SelectProof SDS.Proofs.RawProof SDS.Proofs.BVFull.
 Import ListNotations.
 Open Scope N_scope.
 
@@ -271,4 +271,110 @@ Proof.
   - rewrite (C01_select Pdep Debug Portable Release b c01_B 2 Hrep (fun _ => Hok eq_refl)). vm_compute. reflexivity.
   - rewrite (C01_select Pdep Debug Pdep Debug b c01_B 4 Hrep (fun _ => Hok eq_refl)). vm_compute. reflexivity.
   - vm_compute. reflexivity.
+Qed.
+
+(* ================================================================ the capstone ================================ *)
+(* [raw_inv r] (Proofs/RawProof.v): exactly the words needed, 64-bit words, no bit set at or beyond the length;
+   [abs_raw r] = the first [rlen r] bits of the words. [supports_ok sp m b B] (Proofs/BVFull.v): every support
+   that b carries is the one its builder produces on b (rank_ok / select_ok). *)
+
+(* the invariant of the raw-vector proofs (C05) is the one the bitvector proofs assume, plus the length bound *)
+Theorem C01_raw_invariants : forall r,
+  (raw_wf r <-> raw_inv r /\ rlen r < 2 ^ 64) /\ abs_raw r = bits_of (rlen r) (rdata r).
+Proof. intros r. split; [exact (raw_wf_iff r)|exact (abs_raw_bits_of r)]. Qed.
+Print Assumptions C01_raw_invariants.
+
+(* build_route_irrelevant: FromIterator<bool>, copy_bit_vec (zeros, then set_bit at the positions of the ones -
+   in increasing order as the code does, or in ANY order with repetitions) and From<RawVector> of any valid raw
+   vector holding B all yield ONE record b; it stores B, caches count B and carries no support *)
+Theorem C01_routes_agree : forall B : list bool, lenB B < 2 ^ 64 ->
+  exists b, bv_from_bits B = Ok b /\
+    bv_copy (lenB B) (ones B) = Ok b /\
+    (forall ps, (forall p, In p ps <-> bitB B p = true) -> bv_copy (lenB B) ps = Ok b) /\
+    (forall r, raw_inv r -> abs_raw r = B -> bv_from_raw r = b) /\
+    bv_repr b B /\ bv_rank b = None /\ bv_select b = None /\ bv_select_zero b = None /\
+    bv_ones b = count B /\ bv_len b = lenB B.
+Proof. exact build_route_irrelevant. Qed.
+Print Assumptions C01_routes_agree.
+
+(* enable_rank; enable_select; enable_select_zero on a support-free representation never fails and establishes
+   the two interfaces the embedding structures assume, for EVERY query select path / mode (sp', m'), not only
+   the (sp, m) the supports were built with *)
+Theorem C01_enable_all_interfaces : forall sp m b B,
+  bv_repr b B -> bv_rank b = None -> bv_select b = None -> bv_select_zero b = None ->
+  exists b', bv_enable_all sp m b = Ok b' /\ bv_repr b' B /\ rank_ok b' B /\
+    select_ok sp m Identity b' B /\ select_ok sp m Complement b' B /\
+    (forall sp' m', bv_queries_ok sp' m' b' B) /\ (forall sp' m', bv_select_ok sp' m' b' B).
+Proof. exact bv_enable_all_ok_any. Qed.
+Print Assumptions C01_enable_all_interfaces.
+
+(* the same when b already carries any subset of supports, each being what its builder produces (on whatever
+   select path / mode sp0, m0): the result is moreover the record obtained from the support-free vector *)
+Theorem C01_enable_all_any_supports : forall sp0 m0 sp m b B, bv_repr b B -> supports_ok sp0 m0 b B ->
+  exists b', bv_enable_all sp m b = Ok b' /\ b' = bv_full sp m (bv_strip b) /\ bv_same b b' /\
+    bv_repr b' B /\ rank_ok b' B /\ select_ok sp m Identity b' B /\ select_ok sp m Complement b' B /\
+    (forall sp' m', bv_queries_ok sp' m' b' B) /\ (forall sp' m', bv_select_ok sp' m' b' B).
+Proof. exact bv_enable_all_gen_any. Qed.
+Print Assumptions C01_enable_all_any_supports.
+
+(* the Elias-Fano high part enables only select and select_zero *)
+Theorem C01_enable_selects_interface : forall sp m b B,
+  bv_repr b B -> bv_select b = None -> bv_select_zero b = None ->
+  exists b1 b', bv_enable_select_t sp m Identity b = Ok b1 /\ bv_enable_select_t sp m Complement b1 = Ok b' /\
+    bv_repr b' B /\ bv_same b b' /\ bv_rank b' = bv_rank b /\
+    select_ok sp m Identity b' B /\ select_ok sp m Complement b' B /\
+    (forall sp' m', bv_select_ok sp' m' b' B).
+Proof. exact bv_enable_selects_ok. Qed.
+Print Assumptions C01_enable_selects_interface.
+
+(* THE PROPERTY. For every bit sequence B shorter than 2^64, built by any of the three public routes, with
+   all supports enabled on either select path and in either arithmetic mode (sp, m), every query - issued on
+   either select path and in either mode (sp', m') - returns exactly the answer of the list specification,
+   for EVERY argument. No hypothesis on length, density or clustering: dense / sparse blocks, long / short
+   superblocks and the partial last word / block are case splits inside the proofs.
+   rank_zero: the value i - rank(i) is returned for every i (no underflow in either mode); it is the number
+   of unset bits before i whenever i <= len. *)
+Theorem C01_plain_exact : forall sp m sp' m' (B : list bool), lenB B < 2 ^ 64 ->
+  forall b0, (bv_from_bits B = Ok b0 \/
+              (exists r, raw_inv r /\ abs_raw r = B /\ b0 = bv_from_raw r) \/
+              bv_copy (lenB B) (ones B) = Ok b0) ->
+  exists b, bv_enable_all sp m b0 = Ok b /\
+    bv_len b = lenB B /\ bv_count_ones b = count B /\ bv_count_zeros b = lenB B - count B /\
+    (forall i, i < lenB B -> exists x, bv_get b i = Ok x /\ getb B i = Some x) /\
+    (forall i, bv_rank_q b i = Ok (rank1 B i)) /\
+    (forall i, bv_rank_zero m' b i = Ok (i - rank1 B i) /\
+               (i <= lenB B -> i - rank1 B i = rank1 (map negb B) i)) /\
+    (forall r, bv_select_t sp' m' Identity b r = Ok (select1 B r)) /\
+    (forall r, bv_select_t sp' m' Complement b r = Ok (select0 B r)) /\
+    (forall v, v < 2 ^ 64 -> exists it it',
+       bv_successor sp' m' b v = Ok it /\ oi_next_f Identity b it = Ok (it', succ1 B v)) /\
+    (forall v, v < 2 ^ 64 -> exists it it',
+       bv_predecessor sp' m' b v = Ok it /\ oi_next_f Identity b it = Ok (it', pred1 B v)).
+Proof. exact bv_plain_exact. Qed.
+Print Assumptions C01_plain_exact.
+
+(* ---- non-vacuity: 130 bits (two full words and a 2-bit partial word): every third bit, and bit 128 ---- *)
+
+Definition c01_B130 : list bool := map (fun i => Nat.eqb (Nat.modulo i 3) 0 || Nat.eqb i 128) (seq 0 130).
+
+Example C01_plain_example :
+  exists b0 b, bv_from_bits c01_B130 = Ok b0 /\ bv_enable_all Pdep Debug b0 = Ok b /\
+    bv_len b = 130 /\ bv_count_ones b = 45 /\
+    bv_rank_q b 100 = Ok 34 /\
+    bv_select_t Portable Release Complement b 5 = Ok (Some 8) /\
+    bv_select_t Portable Release Identity b 45 = Ok None /\
+    (exists it it', bv_successor Portable Release b 127 = Ok it /\
+                    oi_next_f Identity b it = Ok (it', Some (43, 128))).
+Proof.
+  assert (HL : lenB c01_B130 < 2 ^ 64) by (vm_compute; reflexivity).
+  assert (exists b0, bv_from_bits c01_B130 = Ok b0) as (b0 & E0) by (vm_compute; eexists; reflexivity).
+  destruct (C01_plain_exact Pdep Debug Portable Release c01_B130 HL b0 (or_introl E0))
+    as (b & Eb & Hlen & Hc1 & _ & _ & Hrk & _ & Hs1 & Hs0 & Hsucc & _).
+  exists b0, b. split; [exact E0|]. split; [exact Eb|].
+  split; [rewrite Hlen; vm_compute; reflexivity|]. split; [rewrite Hc1; vm_compute; reflexivity|].
+  split; [rewrite Hrk; vm_compute; reflexivity|]. split; [rewrite Hs0; vm_compute; reflexivity|].
+  split; [rewrite Hs1; vm_compute; reflexivity|].
+  assert (H127 : 127 < 2 ^ 64) by (vm_compute; reflexivity).
+  destruct (Hsucc 127 H127) as (it & it' & E1 & E2). exists it, it'. split; [exact E1|].
+  rewrite E2. vm_compute. reflexivity.
 Qed.
